@@ -18,6 +18,7 @@ def finding_matches(f, prop, v):
     if f.get("harness_prefix") and not v["harness"].startswith(f["harness_prefix"]): return False
     if "check" in f and f["check"] != v["check"]: return False
     if f.get("check_prefix") and not v["check"].startswith(f["check_prefix"]): return False
+    if f.get("checks") and v["check"] not in f["checks"]: return False
     if f.get("any_tags") and not any(t in v["tags"] for t in f["any_tags"]): return False
     for t in f.get("tags", []):
         if t not in v["tags"]: return False
